@@ -19,6 +19,15 @@ import sys
 import threading
 import time
 
+# the check may run with some signals ignored (under nohup: SIGHUP; as a background job of a shell without job control:
+# SIGINT and SIGQUIT); ignored signals are inherited by the workers, which would then survive their "kill": every signal a
+# scenario can use gets its default action back before any worker is started
+for _name in ("SIGHUP", "SIGQUIT", "SIGTERM", "SIGUSR1", "SIGUSR2", "SIGABRT", "SIGBUS", "SIGFPE", "SIGILL", "SIGALRM"):
+    try:
+        if signal.getsignal(getattr(signal, _name)) == signal.SIG_IGN:
+            signal.signal(getattr(signal, _name), signal.SIG_DFL)
+    except (ValueError, OSError, AttributeError):
+        pass
 os.environ["C10_PARENT_PID"] = str(os.getpid())
 os.environ["C10_SYNC_DIR"] = os.getcwd()
 sys.path.insert(0, os.path.dirname(os.path.abspath(__file__)))
